@@ -272,6 +272,9 @@ def mk_value(ex, kind, tag="v"):
         return [1, 2]
     if kind == "list_bad":
         return [1, "x"]
+    if kind == "tuple_numstr":
+        # numeric strings whose order as TEXT differs from their order as numbers
+        return [("10", "9.5"), ("9.5", "10"), ("1", "2"), (3, "2.5"), ("x", "1")][ex.choice(tag + ".t", 5)]
     if kind == "symstr":
         v = ex.str(tag + ".s")
         if ex.sym:
